@@ -417,6 +417,7 @@ type rawConn struct {
 	srvWin    int64
 	settings  bool
 	dead      string
+	goaway    string
 	streams   map[uint32]*rawStream
 	connUnack int64
 	connWin   int64
@@ -439,7 +440,7 @@ func (rc *rawConn) collect(q *evQueue) {
 		rc.mu.Lock()
 		switch {
 		case e.EOF:
-			rc.dead = "connection ended: " + e.ReadErr
+			rc.dead = "connection ended: " + e.ReadErr + rc.goaway
 			for _, st := range rc.streams {
 				rc.finish(st, rc.dead)
 			}
@@ -476,6 +477,7 @@ func (rc *rawConn) collect(q *evQueue) {
 			continue
 		case e.Is(xhttp2.FrameGoAway):
 			rc.dead = fmt.Sprintf("GOAWAY %v %q", e.ErrCode, e.Debug)
+			rc.goaway = " [" + rc.dead + "]"
 			for id, st := range rc.streams {
 				if id > e.LastStreamID {
 					rc.finish(st, rc.dead)
@@ -678,9 +680,16 @@ func (w *world) runH2Raw(cp *connPlan, px *rig.Proxy) {
 			werr = rc.write(op)
 		}
 		if werr != nil {
+			// the server may have said why it hung up: give the reader a moment to log a GOAWAY / EOF
 			rc.mu.Lock()
+			t := time.AfterFunc(3*time.Second, func() { rc.mu.Lock(); rc.cond.Broadcast(); rc.mu.Unlock() })
+			t0 := time.Now()
+			for rc.dead == "" && time.Since(t0) < 3*time.Second {
+				rc.cond.Wait()
+			}
+			t.Stop()
 			for _, st := range sts {
-				rc.finish(st, "write: "+werr.Error())
+				rc.finish(st, "write: "+werr.Error()+"; "+rc.dead+rc.goaway)
 			}
 			rc.mu.Unlock()
 		}
